@@ -53,12 +53,16 @@ def strip_refs(ty):
 
 
 class Closure:
-    def __init__(self, node, env, body, depth, bvd=0):
+    def __init__(self, node, env, body, depth, bvd=0, pc=(), key=None):
         self.node = node
         self.env = env
         self.body = body
         self.depth = depth
         self.bvd = bvd
+        self.pc = tuple(pc)
+        self.key = key
+        self.applied = False
+        self.param_facts = []
 
 
 class Evaluator:
@@ -69,6 +73,11 @@ class Evaluator:
         self.nclo = 0
         self.bvd = 0
         self.trace = []          # (kind, node, info) events recorded during evaluation
+        self.pc = []             # path condition: bool terms that hold at the current point
+        self.events = []         # dict(kind=..., node=..., pc=..., ...) guarded effects and panic-capable sites
+        self.stack = []          # inlined calls: (callee path, call node, caller body)
+        self.loops = []          # enclosing loop nodes (one symbolic iteration is evaluated)
+        self.top_body = None
         self.newtypes = self._numeric_newtypes()
         self.unknown = []        # constructs evaluated as opaque
 
@@ -94,16 +103,64 @@ class Evaluator:
             self.bind(p, a, env)
         return self.ev(body.body, env, body, depth)
 
+    def emit(self, kind, node, body, **info):
+        ev = dict(kind=kind, node=node, pc=tuple(self.pc), body=body.path if body is not None else None,
+                  depth=len(self.stack), via=tuple((c, n.get('file'), n.get('line')) for c, n, _ in self.stack),
+                  loops=tuple(l.get('_nid') for l in self.loops))
+        ev.update(info)
+        self.events.append(ev)
+        return ev
+
+    def with_pc(self, conds, fn):
+        n = 0
+        for c in conds:
+            c = T.unroot(c) if not T.is_bool(c) else c
+            if T.is_bool(c) and c != T.TRUE:
+                self.pc.append(c)
+                n += 1
+        try:
+            return fn()
+        finally:
+            for _ in range(n):
+                self.pc.pop()
+
+    def eval_entry(self, body, args=None):
+        """evaluate a body as an entry point and then every closure in it that was not applied"""
+        self.top_body = body
+        v = self.eval_body(body, args, 0)
+        self.force_closures(body)
+        return v
+
+    def force_closures(self, body):
+        rounds = 0
+        while rounds < 8:
+            rounds += 1
+            pending = [c for c in list(self.closures.values()) if not c.applied and c.body is body]
+            if not pending:
+                break
+            for c in pending:
+                c.applied = True
+                nid = c.node.get('_nid')
+                args = [T.root(('cp', nid, i)) for i in range(len(c.node['params']))]
+                facts = [f(args) for f in c.param_facts]
+                old_pc = self.pc
+                self.pc = list(c.pc) 
+                try:
+                    self.with_pc(facts, lambda: self.apply(('clo', c.key), args, c.depth))
+                finally:
+                    self.pc = old_pc
+
     def make_closure(self, node, env, body, depth):
         k = self.nclo
         self.nclo += 1
-        self.closures[k] = Closure(node, dict(env), body, depth, self.bvd)
+        self.closures[k] = Closure(node, dict(env), body, depth, self.bvd, self.pc, k)
         return ('clo', k)
 
     def apply(self, fv, args, depth=0):
         fv = T.unroot(fv)
         if isinstance(fv, tuple) and fv and fv[0] == 'clo':
             c = self.closures[fv[1]]
+            c.applied = True
             env = dict(c.env)
             for i, p in enumerate(c.node['params']):
                 if i < len(args):
@@ -118,10 +175,11 @@ class Evaluator:
             return self.call_fn(fv[1], list(fv[2]), list(args), None, None, depth)
         if isinstance(fv, tuple) and fv and fv[0] == 'ctorref':
             return self.ctor(fv[1], list(args))
-        return T.call('apply', fv, *args)
+        return T.root(T.call('apply', fv, *[T.unroot(a) for a in args]))
 
-    def lam(self, fv, depth=0, n=1):
-        """('lam', d, body): fv applied to fresh bound variable(s) $d.. """
+    def lam(self, fv, depth=0, n=1, upstream=None):
+        """('lam', d, body): fv applied to fresh bound variable(s) $d.. ; `upstream` is the iterator whose
+        items the lambda receives (facts about the items enter the path condition)"""
         d = self.bvd
         c = self.closure_obj(fv)
         if c is not None:
@@ -130,9 +188,39 @@ class Evaluator:
         self.bvd = d + n
         try:
             args = [T.bv(d + i) for i in range(n)]
-            return ('lam', d, self.apply(fv, args, depth))
+            facts = self.item_facts(upstream, args[0]) if upstream is not None and n == 1 else []
+            return ('lam', d, self.with_pc(facts, lambda: self.apply(fv, args, depth)))
         finally:
             self.bvd = old
+
+    def item_facts(self, it, x, fuel=12):
+        """facts that hold for every item x of iterator term `it`"""
+        it = T.unroot(it)
+        if fuel <= 0 or not isinstance(it, tuple) or not it:
+            return []
+        tag = it[0]
+        if tag in ('filter', 'take_while') and it[2][0] == 'lam':
+            pred = T.substitute(it[2][2], {T.bv(it[2][1]): x})
+            return [pred] + self.item_facts(it[1], x, fuel - 1)
+        if tag in ('skip', 'take', 'step_by', 'skip_while'):
+            return self.item_facts(it[1], x, fuel - 1)
+        if tag in ('dedup', 'rev', 'sorted', 'cycle'):
+            return self.item_facts(it[1], x, fuel - 1)
+        if tag in ('merge', 'chain'):
+            a = self.item_facts(it[1], x, fuel - 1)
+            b = self.item_facts(it[2], x, fuel - 1)
+            return [f for f in a if f in b]
+        if tag == 'range':
+            facts = [T.cmp('Le', it[1], x)]
+            if it[2] != ('inf',):
+                facts.append(T.cmp('Lt', x, it[2]))
+            return facts
+        if tag == 'once':
+            return [T.cmp('Eq', x, it[1])] if T.is_lin(it[1]) else []
+        if tag == 'elems' and isinstance(it[1], tuple) and it[1] and it[1][0] == 'call' and it[1][1].endswith('::steps_iter'):
+            # items of steps_iter are interval lengths >= 1 (C11's own clause; used here as an assumption)
+            return [T.cmp('Le', T.const(1), x)]
+        return []
 
     def closure_obj(self, fv):
         fv = T.unroot(fv)
@@ -270,10 +358,11 @@ class Evaluator:
                     cond, val = er
                     rest = dict(b)
                     rest = {'k': 'Block', 'stmts': stmts[idx + 1:], 'expr': b.get('expr')}
-                    restv = self.ev_block(rest, env, body, depth)
+                    restv = self.with_pc([T.tnot(cond)] if T.is_bool(cond) else [],
+                                         lambda: self.ev_block(rest, env, body, depth))
                     return self.join(cond, val, restv)
                 if e.get('k') == 'Ret':
-                    return ('ret', self.ev(e['e'], env, body, depth) if e.get('e') else ('unit',))
+                    return self.ev(e, env, body, depth)
                 self.ev(e, env, body, depth)
         if b.get('expr') is not None:
             return self.ev(b['expr'], env, body, depth)
@@ -300,7 +389,13 @@ class Evaluator:
         if len(t['stmts']) > (0 if t.get('expr') is not None else 1):
             return None
         c = self.ev_cond(e['c'], env, body, depth)
-        v = self.ev(last['e'], env, body, depth) if last.get('e') else ('unit',)
+        cb = c if T.is_bool(c) else T.unroot(c)
+
+        def inner():
+            v = self.ev(last['e'], env, body, depth) if last.get('e') else ('unit',)
+            self.emit('ret', last, body, value=v)
+            return v
+        v = self.with_pc([cb], inner)
         return c, ('ret', v)
 
     def join(self, cond, a, b):
@@ -420,6 +515,7 @@ class Evaluator:
     def ev_Index(self, e, env, body, depth):
         b = self.ev(e['e'], env, body, depth)
         i = self.ev(e['i'], env, body, depth)
+        self.emit('index', e, body, base=b, idx=i, base_ty=e.get('base_ty'))
         return T.root(('idx', T.unroot(b), i))
 
     def ev_Struct(self, e, env, body, depth):
@@ -427,6 +523,8 @@ class Evaluator:
         if e['path'].get('res') in ('SelfTyAlias', 'SelfCtor'):
             path = strip_refs(e.get('ty', path)).split('<')[0]
         ty_adt = strip_refs(e.get('ty', '')).split('<')[0]
+        if e['path'].get('defkind') == 'Variant':
+            ty_adt = e['path'].get('def', ty_adt)
         fields = {f['name']: self.ev(f['e'], env, body, depth) for f in e['fields']}
         if ty_adt in self.newtypes and len(fields) == 1 and self.newtypes[ty_adt] in fields:
             return fields[self.newtypes[ty_adt]]
@@ -457,8 +555,12 @@ class Evaluator:
         if cnode.get('k') == 'LetExpr':
             # bindings of the pattern are visible in the then-branch
             self.bind_iflet(cnode, env_t, body, depth)
-        tv = self.ev(e['t'], env_t, body, depth)
-        ev_ = self.ev(e['e'], env_e, body, depth) if e.get('e') is not None else ('unit',)
+        cb = c if T.is_bool(c) else T.unroot(c)
+        tv = self.with_pc([cb], lambda: self.ev(e['t'], env_t, body, depth))
+        if e.get('e') is not None:
+            ev_ = self.with_pc([T.tnot(cb)] if T.is_bool(cb) else [], lambda: self.ev(e['e'], env_e, body, depth))
+        else:
+            ev_ = ('unit',)
         # merge assignments
         for kid in set(env_t) | set(env_e):
             if kid in env and (env_t.get(kid) != env.get(kid) or env_e.get(kid) != env.get(kid)):
@@ -513,9 +615,59 @@ class Evaluator:
         it = None
         if scr.get('k') == 'Call' and scr['args']:
             it = self.ev(scr['args'][0], env, body, depth)
+        snapshot = dict(env)
         self.havoc(e, env)
         self.trace.append(('for', e, it))
+        self.emit('loop', e, body, src='ForLoop', iter=it, env_before=snapshot)
+        # find the `Some(pat) => body` arm of the inner match
+        loopn = e['arms'][0]['body'] if e.get('arms') else None
+        while loopn is not None and loopn.get('k') in ('DropTemps', 'Use'):
+            loopn = loopn['e']
+        arm = None
+        if loopn is not None and loopn.get('k') == 'Loop':
+            blk = loopn['body']
+            cand = []
+            if blk.get('expr') is not None:
+                cand.append(blk['expr'])
+            for st in blk['stmts']:
+                if st['k'] in ('Expr', 'Semi'):
+                    cand.append(st['e'])
+            for c in cand:
+                if c.get('k') == 'Match':
+                    for a in c['arms']:
+                        pk = a['pat'].get('k')
+                        if pk == 'TupleStruct' and a['pat'].get('ps'):
+                            arm = (a, a['pat']['ps'][0])
+                        elif pk == 'Struct' and len(a['pat'].get('fields', [])) == 1:
+                            arm = (a, a['pat']['fields'][0]['p'])
+        if arm is not None:
+            item, facts = self.item_of(self.as_iter(it) if it is not None else None, e.get('_nid'))
+            env_b = dict(env)
+            self.bind(arm[1], item, env_b)
+            self.loops.append(e)
+            try:
+                self.with_pc(facts, lambda: self.ev(arm[0]['body'], env_b, body, depth))
+            finally:
+                self.loops.pop()
+            self.havoc(e, env)
         return ('unit',)
+
+    def item_of(self, it, nid):
+        """(term, facts) describing an arbitrary item of iterator term `it`"""
+        it = T.unroot(it) if it is not None else None
+        if not isinstance(it, tuple) or not it:
+            return T.root(('item', nid)), []
+        tag = it[0]
+        if tag == 'enumerate':
+            x, f = self.item_of(it[1], nid)
+            return T.tup(T.root(('index_of', nid)), x), f
+        if tag == 'map' and it[2][0] == 'lam':
+            x, f = self.item_of(it[1], nid)
+            return T.substitute(it[2][2], {T.bv(it[2][1]): x}), f
+        if tag in ('rev', 'dedup', 'skip', 'take', 'step_by', 'sorted', 'cycle', 'skip_while'):
+            return self.item_of(it[1], nid)
+        x = T.root(('item', nid))
+        return x, self.item_facts(it, x)
 
     def havoc(self, loopnode, env):
         for lid in self.assigned_locals(loopnode):
@@ -523,8 +675,16 @@ class Evaluator:
                 env[lid] = T.root(('havoc', lid, loopnode.get('_nid')))
 
     def ev_Loop(self, e, env, body, depth):
+        snapshot = dict(env)
         self.havoc(e, env)
         self.trace.append(('loop', e, None))
+        self.emit('loop', e, body, src=e.get('src'), env_before=snapshot, env_head=dict(env))
+        self.loops.append(e)
+        try:
+            self.ev(e['body'], dict(env), body, depth)
+        finally:
+            self.loops.pop()
+        self.havoc(e, env)
         return ('loopval', e.get('_nid'))
 
     def ev_Assign(self, e, env, body, depth):
@@ -536,6 +696,8 @@ class Evaluator:
         l = self.ev(e['l'], env, body, depth)
         r = self.ev(e['r'], env, body, depth)
         op = e['op'].replace('Assign', '')
+        if e.get('lty') not in ('f64', 'f32'):
+            self.site(op, e, l, r, body)
         v = self.arith(op, l, r, e)
         self.assign(e['l'], v, env, body, depth)
         return ('unit',)
@@ -558,6 +720,7 @@ class Evaluator:
             else:
                 return
         lid = p['id']
+        self.emit('assign', place, body, local=lid, name=p.get('name'), fields=tuple(reversed(fields)), value=v)
         if not fields:
             env[lid] = v
             return
@@ -579,9 +742,12 @@ class Evaluator:
         return ('upd', cur, ((f, inner),))
 
     def ev_Ret(self, e, env, body, depth):
-        return ('ret', self.ev(e['e'], env, body, depth) if e.get('e') else ('unit',))
+        v = self.ev(e['e'], env, body, depth) if e.get('e') else ('unit',)
+        self.emit('ret', e, body, value=v)
+        return ('ret', v)
 
     def ev_Break(self, e, env, body, depth):
+        self.emit('break', e, body)
         return ('unit',)
 
     def ev_Continue(self, e, env, body, depth):
@@ -636,9 +802,14 @@ class Evaluator:
 
     def ev_Binary(self, e, env, body, depth):
         l = self.ev(e['l'], env, body, depth)
-        # short-circuit operators: the right operand is evaluated all the same (no side effects matter)
-        r = self.ev(e['r'], env, body, depth)
         op = e['op']
+        # short-circuit operators: the right operand is evaluated under the left one
+        if op == 'And' and T.is_bool(l):
+            r = self.with_pc([l], lambda: self.ev(e['r'], env, body, depth))
+        elif op == 'Or' and T.is_bool(l):
+            r = self.with_pc([T.tnot(l)], lambda: self.ev(e['r'], env, body, depth))
+        else:
+            r = self.ev(e['r'], env, body, depth)
         if 'callee' in e and not (self.is_numeric_ty(e.get('lty', '')) or e.get('lty') in ('f64', 'f32', 'bool')):
             # overloaded operator on a non-numeric type
             if op in ('Eq', 'Ne', 'Lt', 'Le', 'Gt', 'Ge'):
@@ -646,7 +817,16 @@ class Evaluator:
             return T.call(e['callee'], l, r)
         if e.get('lty') in ('f64', 'f32'):
             return T.root(('fop', op, T.unroot(l), T.unroot(r)))
+        self.site(op, e, l, r, body)
         return self.arith(op, l, r, e)
+
+    def site(self, op, e, l, r, body):
+        if op == 'Sub':
+            self.emit('sub', e, body, a=l, b=r, lty=e.get('lty'))
+        elif op in ('Div', 'Rem'):
+            self.emit('div', e, body, a=l, b=r, lty=e.get('lty'))
+        elif op in ('Add', 'Mul'):
+            self.emit('addmul', e, body, a=l, b=r, lty=e.get('lty'))
 
     # ---------------------------------------------------------------- calls
     def ctor(self, path, args):
@@ -744,7 +924,8 @@ class Evaluator:
             or path.startswith('std::iter::DoubleEndedIterator::') or path.startswith('itertools::')
         if is_iter_method:
             if name in LAMBDA_STAGES and len(args) == 2:
-                return self.stage(name, self.as_iter(a0), self.lam(args[1], depth))
+                it0 = self.as_iter(a0)
+                return self.stage(name, it0, self.lam(args[1], depth, 1, it0))
             if name in COUNT_STAGES and len(args) == 2:
                 return (name, self.as_iter(a0), args[1])
             if name in PLAIN_STAGES and len(args) == 1:
@@ -771,7 +952,8 @@ class Evaluator:
             if name in ('next', 'last', 'peek'):
                 return (name + 'of', self.as_iter(a0))
             if name in ('any', 'all') and len(args) == 2:
-                return (name, self.as_iter(a0), self.lam(args[1], depth))
+                it0 = self.as_iter(a0)
+                return (name, it0, self.lam(args[1], depth, 1, it0))
         # --- Option / Result
         if path.startswith('std::option::Option') or path.startswith('std::result::Result'):
             if name == 'unwrap_or' and len(args) == 2:
@@ -781,6 +963,8 @@ class Evaluator:
             if name == 'unwrap_or_default':
                 return self.opt_or(a0, T.const(0))
             if name in ('unwrap', 'expect'):
+                if node is not None:
+                    self.emit('unwrap', node, body, arg=a0, method=name)
                 v = T.unroot(a0)
                 if isinstance(v, tuple) and v and v[0] in ('some', 'ok'):
                     return v[1]
@@ -798,13 +982,29 @@ class Evaluator:
         if name in ('last', 'first', 'back', 'front') and len(args) == 1 and ('slice' in path or 'VecDeque' in path):
             return (name, T.unroot(a0))
 
+        if path.startswith('core::panicking') or path.startswith('std::rt::panic') or path.startswith('std::rt::begin_panic') \
+                or path.startswith('core::panic') or path.startswith('std::panicking'):
+            if node is not None:
+                self.emit('panic', node, body, callee=path)
+            return ('never',)
+        if path in ('fixed_point::search', 'fixed_point::search_with_offset'):
+            # the workload closure is only ever called with an assumed response time >= 1
+            for a in args:
+                c = self.closure_obj(a)
+                if c is not None and not c.param_facts:
+                    c.param_facts.append(lambda xs: T.cmp('Le', T.const(1), xs[0]) if xs else T.TRUE)
+
         # --- crate-local code
         b = self.crate.body(path)
         if b is not None and path not in NOINLINE and depth < self.max_depth and b.kind in ('Fn', 'AssocFn'):
             # trait *declarations* with default bodies stay opaque: dispatch is dynamic
             if b.raw.get('trait') and not b.raw.get('impl'):
                 return T.root(T.call(path, *[T.unroot(a) for a in args]))
-            return self.unwrap_ret(self.eval_body(b, args, depth + 1))
+            self.stack.append((path, node if node is not None else {}, body))
+            try:
+                return self.unwrap_ret(self.eval_body(b, args, depth + 1))
+            finally:
+                self.stack.pop()
         if path in NOINLINE and node is not None:
             self.trace.append(('call', node, (path, tuple(args))))
         return T.root(T.call(path, *[T.unroot(a) for a in args]))
